@@ -21,6 +21,9 @@ def run(tier, seed):
         pats = list(range(R ** n))
         z3jobs += GC.split_patterns(dict(base, patterns=pats, expects=r["ok"]), 96)
         emitjobs.append(dict(base, expects=r["ok"]))
+    import random
+    from harness import scaleup
+    z3jobs += scaleup.div_jobs(chk, tier, seed, random.Random(seed + 5))
     results = GC.pmap(GR.run_div, z3jobs)
     for job, mism in zip(z3jobs, results):
         n, R = job["obj"]["graph"]["n"], job["R"]
